@@ -680,7 +680,9 @@ class Translator(object):
         if rel not in self.trees:
             p = os.path.join(self.repo, rel)
             try:
-                with open(p, encoding='utf8') as f:
+                import warnings
+                with open(p, encoding='utf8') as f, warnings.catch_warnings():
+                    warnings.simplefilter('ignore')      # invalid-escape SyntaxWarnings of the source
                     self.trees[rel] = ast.parse(f.read(), p)
             except (IOError, SyntaxError) as e:
                 raise TranslateError('cannot read %s: %s' % (rel, e))
@@ -1070,6 +1072,7 @@ def generate(repo):
         af, dc = tr.proto_flags(rel, cname)
         tr.proto_deser(rel, cname)
         flags.append('(%s, (%s, %s))' % (tag, 'true' if af else 'false', 'true' if dc else 'false'))
+    tr.proto_deser('spyne/protocol/http.py', 'HttpRpc')      # in protocol only
     out.append('(** per out protocol: (after_serialize is fired when a fault is serialised,\n'
                '    ctx.out_document is assigned before the return value is serialised) *)\n')
     out.append('Definition g_proto_flags : list (proto * (bool * bool)) :=\n  [%s].\n' % ';\n   '.join(flags))
